@@ -1,9 +1,20 @@
 #!/bin/bash
-# Build the framework offline from files on disk: regenerate translated definitions and the
-# library root, then lake build everything (all property theorems are checked here once).
-set -e
+# MANIFEST.setup_cmd: build the framework offline from files on disk.
+#  1. regenerate the translated definitions (tie T) from /repo's current source,
+#  2. regenerate the library root,
+#  3. lake build the audit tool and every property module (each on its own, so that one property
+#     whose proof no longer checks -- which its own check reports -- cannot break the others).
 cd "$(dirname "$0")"
-/venv/bin/python translate/py2lean.py >/dev/null || echo "setup: some translation targets are broken (reported by the checks)"
+/venv/bin/python translate/py2lean.py >/dev/null || echo "setup: some translation targets are broken (the checks report them)"
 tools/gen_root.sh
 cd lean
-lake build HdVerif HdVerif.Audit 2>&1 | grep -v "^warning\|^Hint\|^Note\|^  \|^$" | tail -15
+lake build HdVerif.Model.Basic HdVerif.Model.Json HdVerif.Audit 2>&1 | grep -v "^warning\|^Hint\|^Note\|^  \|^$" | tail -5
+rc=${PIPESTATUS[0]}
+for f in HdVerif/Props/C*.lean; do
+  m="HdVerif.Props.$(basename "$f" .lean)"
+  lake build "$m" >/dev/null 2>&1 && echo "setup: built $m" || echo "setup: $m does not build (its check will report it)"
+done
+for d in Drivers/C*.lean; do   # driver dependencies (models) are built by the property modules above
+  :
+done
+exit $rc
